@@ -194,3 +194,59 @@ class Sim:
 
     def line(self):
         return "client " + " ; ".join(s for s, _ in self.steps), " ; ".join((e if e is not None else "?") for _, e in self.steps)
+
+
+# ---- step budget via sys.monitoring (line events inside dpapi_ng only) ---------------------------------
+class StepBudgetExceeded(Exception):
+    pass
+
+
+class StepCounter:
+    """Counts LINE events in dpapi_ng code objects; raises StepBudgetExceeded past `budget`
+    (so that a non-terminating decoder is reported, not hung)."""
+    TOOL = 4
+
+    def __init__(self, budget):
+        self.budget, self.n = budget, 0
+
+    def __enter__(self):
+        import sys
+        mon = sys.monitoring
+        self.mon = mon
+        try:
+            mon.use_tool_id(self.TOOL, "verif-steps")
+        except ValueError:
+            mon.free_tool_id(self.TOOL)
+            mon.use_tool_id(self.TOOL, "verif-steps")
+
+        def on_line(code, line):
+            if "dpapi_ng" not in code.co_filename:
+                return mon.DISABLE
+            self.n += 1
+            if self.n > self.budget:
+                raise StepBudgetExceeded()
+        mon.register_callback(self.TOOL, mon.events.LINE, on_line)
+        mon.set_events(self.TOOL, mon.events.LINE)
+        return self
+
+    def __exit__(self, *a):
+        self.mon.set_events(self.TOOL, 0)
+        self.mon.register_callback(self.TOOL, self.mon.events.LINE, None)
+        self.mon.free_tool_id(self.TOOL)
+        return False
+
+
+HASHES = ["SHA1", "SHA256", "SHA384", "SHA512"]
+SMALL_DH = (4, 4294967291, 2)
+
+
+def standard_roots(real=False):
+    """root keys covering 4 hashes × {DH default group, small DH group (toy only), ECDH_P256, ECDH_P384}"""
+    out = []
+    i = 0
+    for hn in HASHES:
+        for sa, sp, plen, publen in (("DH", None, 512, 2048), ("DH", refimpl.ffc_params(*SMALL_DH), 64, 32), ("ECDH_P256", b"", 256, 256), ("ECDH_P384", b"", 384, 384)):
+            i += 1
+            rid = uuid.UUID(int=(0xd778c271902595a82f6dcb8960b8ad00 << 0) + i)
+            out.append(refdc.RootKeyRec(rid, bytes((7 * i + j) & 0xFF for j in range(64)), hn, sa, sp, plen, publen))
+    return out
